@@ -528,6 +528,45 @@ def l_clear(R, recv, args, kw, node):
     return mk_none()
 
 
+def lex_le(R, t, a, b, strict=False):
+    """python ordering of two values of data type t (numbers, strings, tuples thereof)"""
+    k = t.kind
+    if k in ("int", "real"):
+        return a < b if strict else a <= b
+    if k == "bool":
+        return z3.And(z3.Not(a), b) if strict else z3.Implies(a, b)
+    if k == "str":
+        return a < b if strict else a <= b
+    if k == "tuple":
+        res = z3.BoolVal(not strict)
+        for i in range(len(t.items) - 1, -1, -1):
+            ti = t.items[i]
+            ai, bi = t.get(a, i), t.get(b, i)
+            res = z3.Or(lex_le(R, ti, ai, bi, strict=True), z3.And(ai == bi, res))
+        return res
+    raise Unsupported("ordering of %s" % t)
+
+
+@method("list", "sort")
+def l_sort(R, recv, args, kw, node):
+    if kw or args:
+        raise Unsupported("list.sort with key/reverse")
+    cell = R.cell(recv)
+    if cell.ty.elem.kind == "pending":
+        return mk_none()
+    c = R.content(recv)
+    res = z3.Const(fresh_name("sorted"), c.t.sort())
+    n = z3.Length(c.z)
+    R.set_content(recv, V(c.t, res))
+    R.assume(z3.Length(res) == n)
+    i, j = z3.Int(fresh_name("i")), z3.Int(fresh_name("j"))
+    R.assume(z3.ForAll([i, j], z3.Implies(z3.And(0 <= i, i <= j, j < n), lex_le(R, c.t.elem, res[i], res[j]))))
+    # permutation: same elements (membership both ways); multiplicities not modelled
+    x = z3.Const(fresh_name("x"), c.t.elem.sort())
+    R.assume(z3.ForAll([x], z3.Contains(res, z3.Unit(x)) == z3.Contains(c.z, z3.Unit(x))))
+    return mk_none()
+
+
 @method("list", "copy")
 def l_copy(R, recv, args, kw, node):
     r = R.list_from_seq(R.content(recv), py=recv.t.py)
@@ -811,6 +850,8 @@ def call_method(R, recv, name, args, kw, node):
         k = recv.t.kind
     if k == "none":
         raise PyRaise(Exc("AttributeError", tag=lab(R, node, "." + name)))
+    if k == "opaque":
+        return R.ctx.call_opaque_method(R, recv, name, args, kw, node)
     f = METHODS.get((k, name))
     if f is None:
         cm = R.ctx.custom_method(recv, name)
